@@ -2,9 +2,14 @@
 Theorems: Props/C03.v (scan = RAW relation, forward edges, flags only with -f; generic in alias test / numbers).
 X: Model/Deps.v = KernelDG.create_DG bit for bit (edges + weights) on synthetic ISA/arch databases with random roles,
    hidden flag operands, zero idioms, default roles, pre/post-index write-back, and on shipped kernels x models.
+T: KernelDG.is_read / is_written / is_memstore / is_memload / _update_reg_changes / find_depending are regenerated from the current
+   source on every run (tools/gen_deps.py -> Gen/DepsGen.v); PropsGen/C03deps.v proves them equal to the hand model on every input of
+   the model's types and restates the scan theorems for them; the regenerated text is cross-checked against the Python methods on
+   dumps of the real objects of this run's kernels (harness/deps_gen.py).
 Search: edge set vs an independent architectural read-after-write relation computed from the generator's roles."""
 import depcheck
 import deps
+import deps_gen
 
 FINISH = dict(level="proof",
               rule="synthetic: random ISA semantic DB (1-4 operands, random source/destination roles, hidden CF/ZF operands, zero idioms, "
@@ -16,8 +21,10 @@ FINISH = dict(level="proof",
 def run(ctx):
     depcheck.prepare(ctx, "Props/C03.v")
     cases = []
+    items = []          # real objects for the translator cross-check (deps_gen)
     for case, kernel, dg, isa, gl, pipe in depcheck.synthetic(ctx, ctx.n(160, 3000)):
         ctx.count()
+        items.append((kernel, dg, isa, pipe.sem, "synthetic kernel %r (flag deps %s)" % (case["text"][:200], case["flagdeps"])))
         if case["edges"]:
             ctx.nontriv((case["text"], case["flagdeps"], case["db"]["isa_yaml"]))
         depcheck.raw_oracle(ctx, case, isa, gl)
@@ -33,7 +40,9 @@ def run(ctx):
             if not ld and not u < v:
                 ctx.violation("edge-not-forward", "%s: edge %d -> %d" % (case["origin"], u, v), {"origin": case["origin"]})
         real.append(case)
+        items.append((kernel, dg, isa, pipe.sem, case["origin"]))
     depcheck.run_shards(ctx, real, "real", size=2)
+    deps_gen.run(ctx, items, ["PropsGen/C03deps.v"])
     vocabulary(ctx)
 
 
